@@ -76,7 +76,6 @@ def run(ctx):
     if not q:
         for salt in (3, 4):
             ctx.replay(b, rows_e, opts=dict(salt=salt), par=4, timeout=T, count=False)
-        ctx.replay(b, rows, opts=dict(salt=5), par=4, timeout=T, count=False)
     ctx.exhaustive = False  # exhaustive over the abstract rows of the bounded configs, sampled concretisation
     # 3. longer rows by simulation (full alphabet, lists up to 7), both fork orders
     n = 600 if q else 6000
